@@ -26,10 +26,10 @@ TMsg == /\ IsEvent("Msg") /\ UNCHANGED <<tid, vars>>
         /\ Chk("msg.blocks-back", (Rec.st = "ok" /\ Rec.dst = "ok") => Rec.bb = Rec.ob)
 
 VarOK(x) == /\ Env("value fits its template type", x[2] \in Types /\ Fits(x[2], x[3]))
-            /\ Chk("var.carrier", x[4] = Carrier(x[2], x[3]))
+            /\ Chk("var.carrier", Same(x[4], Carrier(x[2], x[3])))
             /\ Chk("var.carrier-is-llsd", IsLLSD(x[4]))
-            /\ Chk("var.restores", Restore(x[2], x[4]) = x[3])
-            /\ Chk("var.roundtrip", x[5] = x[3])
+            /\ Chk("var.restores", SameMV(Restore(x[2], x[4]), x[3]))
+            /\ Chk("var.roundtrip", SameMV(x[5], x[3]))
 TBlk == /\ IsEvent("Blk") /\ UNCHANGED <<tid, vars>>
         /\ \A i \in 1..Len(Rec.vars) : VarOK(Rec.vars[i])
 
